@@ -25,12 +25,17 @@ PARSER_RULE = ("parser stream: generated ODS + INI pairs (random column permutat
 CLI_RULE = ("cli stream (end to end): 1-3 assets written as a real .ods + .ini pair (crypto-fee acquisitions, sparse years, mixed offsets), one of the five entry points with "
             "random supported options (method / schedule section, language, from/to windows incl. empty and out-of-range, -n, -a, prefix) run in a forked child under an audit hook; "
             "exit status, files written, audit events and every report (English-language outputs cell by cell, others for readability) compared with the Lean whole-run model "
-            "(cells -> parser -> engine -> generators -> files); non-trivial = exit 0 with >= 3 report rows, or a faulty invocation rejected; distinct by content hash")
+            "(cells -> parser -> engine -> generators -> files); non-trivial = exit 0 with >= 3 report rows, or a faulty invocation rejected; distinct by content hash; "
+            "the three tables of every sheet in any of the six orders; account names that collide when joined by '_'; [accounting_methods] lines in any order with a method "
+            "that comes back after another (C01: oracle on the Gain / Loss Detail rows of the real file, identified through the file's hyperlinks; C05: LONG/SHORT cells vs the "
+            "instants of the input rows, threshold-seeking histories with sub-second lots and crypto fees; C10: the same input run without a window, in-window rows compared; "
+            "C12: one invalid cell in a row, often dated after the to-date; C16: three assets whose sales together outgrow a tax-report sheet; C17: all five other table orders; "
+            "C18: environment switches the source reads)")
 
 PROPS = {
-    "C01": {"streams": [S("engine", 2000, 160000, ["fractions"]), S("cli", 40, 1200, ["exit", "detail", "model"])], "rule": ENGINE_RULE,
+    "C01": {"streams": [S("engine", 2000, 160000, ["fractions"]), S("cli", 40, 1200, ["exit", "detail", "model"])], "rule": ENGINE_RULE + "; " + CLI_RULE,
             "assumptions": ["hypothesis SameInstantSameYear (finding F7): events at one instant share a local year"],
-            "technique": "Lean 4 refinement proof (engine with heaps/cache/indices = greedy spec) + regenerated sort-key table + differential correspondence",
+            "technique": "Lean 4 refinement proof (engine with heaps/cache/indices = greedy spec; method in force independent of the order of the schedule's lines) + regenerated sort-key table + differential correspondence (API level and end to end)",
             "text": "Theorem engine_eq_spec / best_lot: for all histories, methods and schedules the engine model takes every piece from the best-ranked available lot; "
                     "tie to the code by Gen.Methods (decide) and the engine stream (compute_tax vs compiled model, fraction by fraction).",
             "design_ref": "DESIGN.md §3 C01"},
@@ -39,18 +44,18 @@ PROPS = {
             "text": "Theorems cover_and_no_overspend and succeeds_iff_feasible hold for every history and method; correspondence on the engine stream incl. the exhausted status.",
             "design_ref": "DESIGN.md §3 C02"},
     "C03": {"streams": [S("engine", 1500, 80000, ["fractions", "types"]), S("pipeline", 600, 30000, ["types", "fractions", "status-engine", "status-crash"])], "rule": ENGINE_RULE, "assumptions": [],
-            "technique": "Lean 4 proof: taxable events are a permutation of earn-IN + OUT + fee-INTRA; each event once and in full; regenerated type table",
+            "technique": "Lean 4 proof: taxable events are a permutation of earn-IN + OUT + fee-INTRA; each event once and in full; regenerated type table; is_taxable / is_earning bodies translated from the source on every run = the filters of the model's taxableEvents",
             "text": "Theorems events_exact / events_perm / each_once_in_full; tie by Gen.Types and the engine + pipeline streams.",
             "design_ref": "DESIGN.md §3 C03"},
     "C04": {"streams": [S("pipeline", 1200, 60000, ["figures", "status-crash"]), S("dec", 4000, 400000, ["value", "status"]), S("parser", 300, 15000, ["fields"])], "rule": PIPE_RULE, "assumptions": [],
-            "technique": "Lean 4: formulas stated outright on the bit-exact 31-digit decimal model, exact parts-add-to-whole, rounding-error lemmas; bit-exact differential correspondence of every figure",
+            "technique": "Lean 4: formulas stated outright on the bit-exact 31-digit decimal model and proved equal to the Python bodies translated from the source on every run (getters and the three constructors), exactness of decimal arithmetic on the 1e-11 grid, exact parts-add-to-whole, rounding-error lemmas; bit-exact differential correspondence of every figure",
             "text": "Theorems proceeds/cost/gain formulas, supplied-over-computed, parts_add_to_whole (exact), two_roundings_bound, round_half_even_err; "
                     "every proceeds/cost/gain figure of generated histories is compared with the model as an exact rational, and with exact Fraction arithmetic by the oracle.",
             "design_ref": "DESIGN.md §3 C04"},
     "C05": {"streams": [S("pipeline", 1200, 60000, ["long", "status-crash"]), S("reports", 40, 2000, ["detail", "taxreport", "taxsheet", "status"]),
                         S("cli", 24, 1000, ["exit", "detail", "model"])],
-            "rule": PIPE_RULE + "; C05: holding periods placed at k*period days +-{0,1us,1s}; reports stream for C05: LONG/SHORT cells of rp2_full_report.ods, tax_report_us.ods and tax_report_ie.ods (multi-asset, colliding row numbers)", "assumptions": [],
-            "technique": "Lean 4 proof: isLong iff period*86400e6 <= instant difference; regenerated country table; correspondence on threshold pairs",
+            "rule": PIPE_RULE + "; " + CLI_RULE + "; C05: holding periods placed at k*period days +-{0,1us,1s}; reports stream for C05: LONG/SHORT cells of rp2_full_report.ods, tax_report_us.ods and tax_report_ie.ods (multi-asset, colliding row numbers)", "assumptions": [],
+            "technique": "Lean 4 proof: isLong iff period*86400e6 <= instant difference, and isLong = the body of is_long_term_capital_gains translated from the source on every run; regenerated country table; correspondence on threshold pairs (API level, reports, end to end)",
             "text": "Theorems long_iff, income_short, never_long on the model's Fraction.isLong; Gen.Countries periods decided; pipeline stream with threshold-seeking generator.",
             "design_ref": "DESIGN.md §3 C05"},
     "C06": {"streams": [S("pipeline", 1200, 60000, ["yearly", "status-crash"]), S("reports", 30, 1500, ["taxsheet", "summary", "status"])], "rule": PIPE_RULE + "; reports stream for C06: the Gain / Loss Summary table and the Summary sheet of the real rp2_full_report.ods",
@@ -73,7 +78,7 @@ PROPS = {
             "technique": "Lean 4 proof: prefix theorem on the greedy spec (later lots/events cannot change earlier fractions) carried to the engine by refinement; correspondence on (history, truncated history) pairs",
             "text": "Theorem earlier_fractions_unchanged (runS_prefix); oracle compares the to-date-limited run with the run on the truncated history, on the real code.",
             "design_ref": "DESIGN.md §3 C09"},
-    "C10": {"streams": [S("pipeline", 800, 40000, ["views", "fractions", "figures", "numbering", "yearly", "balances", "price", "sums", "status-crash"]), S("cli", 40, 1200, ["exit", "detail", "inout", "model"])], "rule": PIPE_RULE,
+    "C10": {"streams": [S("pipeline", 800, 40000, ["views", "fractions", "figures", "numbering", "yearly", "balances", "price", "sums", "status-crash"]), S("cli", 40, 1200, ["exit", "detail", "inout", "model"])], "rule": PIPE_RULE + "; " + CLI_RULE,
             "assumptions": ["hypothesis LocalDatesMonotone (F6)"],
             "technique": "Lean 4 proof: a window view is the filter by [from,to] under monotone local dates; correspondence of ComputedData for random windows",
             "text": "Theorem view_is_filter; filtered ComputedData compared with the model; oracle compares filtered run with the filter of the unfiltered run on the real code.",
